@@ -141,6 +141,7 @@ def evaluate(ctx, cases):
     from .. import lexcorr
     texts = [c["text"] for c in cases] + lexer_soup(ctx)
     lexcorr.run_texts(ctx, env, texts)
+    lexcorr.run_compile(ctx, env, texts)
     compiled = []
     for c in cases:
         o = qeval.compile_outcome(c["text"])
